@@ -3433,7 +3433,12 @@ func (n *EncapNLRI) decodeFromBytes(data []byte, options ...*MarshallingOption) 
 	default:
 		return NewMessageError(BGP_ERROR_UPDATE_MESSAGE_ERROR, BGP_ERROR_SUB_INVALID_NETWORK_FIELD, nil, "nlri length isn't valid")
 	}
-	addr, _ := netip.AddrFromSlice(data[1:])
+	// Only the endpoint's own octets belong to this NLRI; more NLRIs may follow in the buffer.
+	addrlen := int(data[0]) / 8
+	if len(data) < 1+addrlen {
+		return NewMessageError(BGP_ERROR_UPDATE_MESSAGE_ERROR, BGP_ERROR_SUB_INVALID_NETWORK_FIELD, nil, "nlri is short")
+	}
+	addr, _ := netip.AddrFromSlice(data[1 : 1+addrlen])
 	n.Endpoint = addr
 	return nil
 }
